@@ -15,6 +15,7 @@ CONSTANTS
  WithMemMerge = FALSE
  MaxMergeInputs = 2
  AsyncRelease = FALSE
+  WithMergeFail = FALSE
  MaxOpens = 1
 CONSTRAINT Bound
 INVARIANTS RootIsReplay HeldAreReplays BoltFilesOnDisk RootFilesOnDisk CopyFilesOnDisk CopyIsPrefix
